@@ -243,7 +243,12 @@ fn check_inproc(case: &Case, ctx: &Ctx) -> Outcome {
 }
 
 fn check_cli(case: &Case, ctx: &Ctx) -> Outcome {
-    let seqs = gen::materialise_recs(&case.recs, case.k);
+    let mut seqs = gen::materialise_recs(&case.recs, case.k);
+    // one case in six with >= 2 records: a record without any sequence (a header directly followed by the next
+    // header) stands between the others; it holds nothing and the records behind it count as before
+    if seqs.len() >= 2 && (seqs.len() + case.k / 2 + seqs[0].len()) % 6 == 1 {
+        seqs.insert(1, Vec::new());
+    }
     let dict = model::build_sample(&seqs, case.k, case.rc);
     let dir = ctx.case_dir();
     let f = dir.join("smp.fa");
@@ -255,7 +260,12 @@ fn check_cli(case: &Case, ctx: &Ctx) -> Outcome {
     // In some cases (always for the default k = 17) the assembly is built from a list in which a read
     // pair stands next to it: the FASTA sample must come out exactly as on its own.
     let companion = !dict.is_empty() && (case.k == 17 || seqs.len() + case.k / 2 % 5 == 3);
-    let reads: Vec<Vec<u8>> = vec![gen::filler(case.k + 6, 3), model::revcomp(&gen::filler(case.k + 4, 5))];
+    let mut reads: Vec<Vec<u8>> = vec![gen::filler(case.k + 6, 3), model::revcomp(&gen::filler(case.k + 4, 5))];
+    // one companion read set in five holds an ultra-long read (more than 2^17 bases)
+    if companion && (seqs.len() + case.k) % 5 == 2 {
+        let mut x = (case.k as u64) << 20 | seqs.len() as u64 | 1;
+        reads[0] = (0..131_072 + 500 + 37 * case.k).map(|_| { x = crate::engine::splitmix64(x); model::BASES[(x >> 30) as usize & 3] }).collect();
+    }
     let mut reads_first = false;
     let mut args = if companion {
         cli::write_fastq(&dir.join("reads_1.fastq"), &[(reads[0].clone(), vec![b'I'; reads[0].len()])]);
